@@ -229,6 +229,43 @@ theorem http_eventual_delivery_partial (c : Cfg) (hn : c.naddr ≠ 0) (m : Msg) 
       | roundRobin => rw [step_rr c counter m _ _ _ hs hm hn, hja]; simp
       | hostPool => rw [step_hp c counter m _ _ _ hs hm, hja]; simp
 
+/-! ### the tool as shipped (handler behind go-nsq's `handlerLoop` with its `max_attempts` give-up) -/
+
+/-- full statement for the tool: a `Finish` always has sampling or an accepted request behind it -/
+def tool_fin_only_after_accept : Prop :=
+  ∀ (c : Cfg) (maxAttempts attempts counter : Nat) (m : Msg) (so : Bool) (pick : Nat) (resp : Nat → Option Nat),
+    Out.fin m.id ∈ (consume c maxAttempts attempts counter m so pick resp).2 →
+      (c.sampling = true ∧ so = true) ∨ ∃ a, Out.request a m.body true ∈ (consume c maxAttempts attempts counter m so pick resp).2
+
+/-- … is **false on the current tree** (open finding): with go-nsq's default `max_attempts = 5` the sixth
+delivery of a message is finished without any request — a destination that failed five times never gets it. -/
+theorem tool_fin_only_after_accept_false : ¬ tool_fin_only_after_accept := by
+  intro h
+  have hw : (consume ⟨.roundRobin, 1, true, false⟩ 5 6 0 ⟨7, [1]⟩ false 0 (fun _ => some 500)).2 = [Out.fin 7] := by decide
+  have := h ⟨.roundRobin, 1, true, false⟩ 5 6 0 ⟨7, [1]⟩ false 0 (fun _ => some 500) (by rw [hw]; simp)
+  rw [hw] at this
+  cases this with
+  | inl h => cases h.1
+  | inr h => obtain ⟨a, ha⟩ := h; simp at ha
+
+/-- … and holds whenever the library does not give up (`max_attempts = 0`, or attempts ≤ max_attempts). -/
+theorem tool_fin_only_after_accept_partial (c : Cfg) (hn : c.naddr ≠ 0) (maxAttempts attempts counter : Nat) (m : Msg)
+    (so : Bool) (pick : Nat) (resp : Nat → Option Nat) (hno : shouldFail maxAttempts attempts = false)
+    (hfin : Out.fin m.id ∈ (consume c maxAttempts attempts counter m so pick resp).2) :
+    (c.sampling = true ∧ so = true) ∨ ∃ a, Out.request a m.body true ∈ (consume c maxAttempts attempts counter m so pick resp).2 := by
+  unfold consume at hfin ⊢
+  rw [hno] at hfin ⊢
+  simp only [Bool.false_eq_true, if_false] at hfin ⊢
+  cases http_fin_only_after_accept c counter m so pick resp hfin with
+  | inl h => exact Or.inl h
+  | inr h =>
+    right
+    by_cases hm : c.mode = .all
+    · exact ⟨0, h.2.1 hm 0 (Nat.pos_of_ne_zero hn)⟩
+    · exact h.2.2 hm
+
+example : shouldFail 5 5 = false ∧ shouldFail 5 6 = true ∧ shouldFail 0 1000 = false := by decide
+
 example : (step ⟨.all, 2, true, false⟩ 0 ⟨7, [1]⟩ false 0 (fun a => if a = 0 then some 200 else some 500)).2 =
     [Out.request 0 [1] true, Out.request 1 [1] false, Out.req 7] := by decide
 example : (step ⟨.all, 2, true, false⟩ 0 ⟨7, [1]⟩ false 0 (fun _ => some 204)).2 =
@@ -371,7 +408,7 @@ theorem n2n_outstanding_published (c : Cfg) (evs : List Ev) (st : St) :
           cases key _ h with
           | inl h => exact Or.inl h
           | inr h => exact Or.inr (Or.inl h)
-        · simp only [hf, if_false] at h ⊢
+        · simp only [hf] at h ⊢
           cases f with
           | drop => exact Or.inl h
           | backoff => exact Or.inl h
